@@ -715,12 +715,20 @@ func H_C12_orders() {
 // C17: Ready is true only while the server is really listening.
 func H_C17_ready() {
 	vSchedFork(1)
-	v := vNewSrv()
+	// a server with read / write timeouts, and a client that connects long after Run started
+	// (longer than the timeouts): it is served like any other
+	withTimeouts := vBool("withTimeoutsAndLateClient")
+	var srvOpts []Option
+	if withTimeouts {
+		srvOpts = append(srvOpts, WithReadTimeout(time.Second), WithWriteTimeout(time.Second))
+	}
+	v := vNewSrv(srvOpts...)
 	addrs := []string{"127.0.0.1:10389", "[::1]:10389", "localhost:10389", ":10389", "::1:10389", "127.0.0.1", "[::1]", "[::1:10389", "300.1.1.1:389", "127.0.0.1:", "127.0.0.1:65536", "127.0.0.1:-1"}
 	// the address the server must be listening on when Ready() is true ("" = Run must fail:
 	// no port, malformed, or a port outside 0..65535)
 	wantListen := []string{"127.0.0.1:10389", "[::1]:10389", "localhost:10389", ":10389", "[::1]:10389", "", "", "", "", "", "", ""}
 	ai := vLen("addr", len(addrs)-1)
+	vAssume(!withTimeouts || ai == 0)
 	vEnvSet("listenErr", vBool("listenFails"))
 	resolves := vBool("hostResolves")
 	vEnvSet("resolves", resolves)
@@ -794,6 +802,9 @@ func H_C17_ready() {
 			c0 := vNetConn("c0")
 			vConnSet(c0, "tlsPending", true)
 			vEnvAccept(c0)
+		}
+		if withTimeouts {
+			vTimePasses()
 		}
 		vEnvAccept(nc)
 		vQuiesce()
@@ -970,4 +981,46 @@ func H_C15_server() {
 	vQuiesce()
 	vAssertE(v.ranRun && v.ranStop, "workload completes")
 	vReach("workload")
+}
+
+func init() { vReg("H_C13_stop_upgraded", H_C13_stop_upgraded) }
+
+// C13: a connection upgraded with StartTLS stays TLS-protected to its end. After the
+// upgrade the client either goes idle or sends another request; then the server is
+// stopped. Whatever the server sends after the StartTLS response (answers, the notice
+// of disconnection) travels through the TLS connection; nothing is written on the
+// accepted socket underneath it.
+func H_C13_stop_upgraded() {
+	vSchedFork(1)
+	v := vNewSrv()
+	cfg := &tls.Config{MinVersion: tls.VersionTLS12}
+	nc := vNetConn("c1")
+	var startErr error
+	vAssume(v.mux.ExtendedOperation(func(w *ResponseWriter, r *Request) {
+		_ = w.Write(r.NewExtendedResponse(WithResponseCode(ResultSuccess)))
+		startErr = r.StartTLS(cfg)
+	}, ExtendedOperationStartTLS) == nil)
+	vAssume(v.mux.Delete(func(w *ResponseWriter, r *Request) {
+		_ = w.Write(r.NewResponse(WithResponseCode(ResultSuccess)))
+	}) == nil)
+	vConnFeed(nc, vWire(refEnvelope(1, refStartTLSOp(), nil)))
+	after := vLen("requestsInsideTheTunnel", 1)
+	for i := 0; i < after; i++ {
+		vConnFeed(nc, vWire(refEnvelope(int64(i+2), refDeleteOp(), nil)))
+	}
+	vConnFeedBlock(nc) // then the client is idle
+	v.goRun()
+	vQuiesce()
+	vEnvAccept(nc)
+	vQuiesce()
+	vAssertE(startErr == nil, "the upgrade succeeds")
+	v.goStop()
+	vQuiesce()
+	vAssertE(v.ranStop && v.ranRun, "Stop and Run return")
+	total := vConnWrites(nc)
+	vAssertE(total >= 1+after, "the StartTLS response and every answer were written")
+	for i := 1; i < total; i++ {
+		vAssertE(vConnWriteLayer(nc, i) == "tls", "after the upgrade every byte the server sends travels through the TLS connection")
+	}
+	vReach("stopped after upgrade")
 }
